@@ -17,7 +17,7 @@ RULE = ("(a) id sweep on live sessions with a recording subscriber registered fo
         "(every prefix at thorough, 3 sampled at quick)}; the trusted protobuf runtime classifies each payload as parseable or not. "
         "(b) seeded subscribe/unsubscribe/dispatch histories with re-entrant callbacks (self-removal, removing a peer, adding a new subscriber, "
         "adding one for another type) over 1-4 subscribers per type, judged by a reference dispatcher with snapshot semantics. (c) peer "
-        "PingRequest / GetTimeRequest / DisconnectRequest answered (response first, then expected close), also when they arrive while the session is being established (behind the HelloResponse or the last answer, same or own chunk). Non-trivial = a frame was sent to the "
+        "undefined-type frames between unanswered pings vs a silent control (same ping instants, same death); PingRequest / GetTimeRequest / DisconnectRequest answered (response first, then expected close), also while the client's own disconnect() is pending (crossing disconnects) and when they arrive while the session is being established (behind the HelloResponse or the last answer, same or own chunk). Non-trivial = a frame was sent to the "
         "client and its effect compared; distinct = (framing, id, payload class, expectation) resp. history shape")
 ASSUMPTIONS = [
     "ids come from the api.proto text (vf.protoparse); payload validity is decided by the protobuf runtime (trusted)",
@@ -440,7 +440,109 @@ def peer_requests_during_connect(ctx: Ctx) -> None:
                     sim.run(until=lambda: d.done, max_time=sim.clock + 5)
 
 
+def undefined_frames_and_keepalive(ctx: Ctx) -> None:
+    """'Ignored with no other effect' includes the keep-alive bookkeeping: a peer that never answers pings must be pinged at the same instants and
+    declared dead at the same instant whether or not it emits frames of undefined type in between (differential run against a silent control)."""
+    res = ctx.res
+    from aioesphomeapi.core import PingFailedAPIError
+
+    max_id = max(protoparse.load_api().by_id)
+    idx = 0
+    for framing in ("plain", "noise"):
+        for K in (1.0, 2.5):
+            for ids in ([max_id + 1], [16385, 65535], [0, max_id + 7, 200000 if framing == "plain" else 40000]):
+                idx += 1
+                if not ctx.mine(idx):
+                    continue
+                runs = []
+                for with_frames in (False, True):
+                    with Sim() as sim:
+                        cfg = DeviceConfig(answer_ping=False)
+                        if framing == "noise":
+                            cfg.noise_psk = PSK
+                        dev = sim.device(cfg)
+                        kw = {"noise_psk": base64.b64encode(PSK).decode()} if framing == "noise" else {}
+                        cli = sim.client(keepalive=K, **kw)
+                        c0 = sim.call("connect", lambda: cli.connect(on_stop=sim.on_stop_cb(), login=False))
+                        sim.run(until=lambda: c0.done, max_time=sim.clock + 50)
+                        t_est = sim.clock
+                        if with_frames:
+                            n = int(8 * K / 0.3)
+                            for j in range(n):
+                                dev.conn.send_id(ids[j % len(ids)], bytes([j & 0xFF]) * (j % 5), delay=0.3 * (j + 1) + 0.07)
+                        sim.run_for(9 * K)
+                        v = sim.conns[0]
+                        pings = [round(r["t"] - t_est, 6) for r in dev.conn.received if r["name"] == "PingRequest"]
+                        first = v.fatals[0][2] if v.fatals else None
+                        runs.append({"pings": pings, "closed": None if v.closed_t is None else round(v.closed_t - t_est, 6), "cause": type(first).__name__ if first else None,
+                                     "on_stop": [x[2] for x in v.on_stop], "trace": sim.trace(40)})
+                res.evaluations += 1
+                res.count("workload/undefined-frames-vs-keepalive")
+                res.sig("undef-keepalive", framing, K, tuple(ids))
+                a, b = runs
+                case = {"framing": framing, "keepalive": K, "undefined_ids": ids}
+                if a["cause"] != "PingFailedAPIError" or a["closed"] is None:
+                    res.inconclusive.append(f"control run without frames did not end in a ping failure: {a['cause']} {a['closed']}")
+                    continue
+                if (b["pings"], b["closed"], b["cause"], b["on_stop"]) != (a["pings"], a["closed"], a["cause"], a["on_stop"]):
+                    res.violation("C12/undefined-id-affected-keepalive", f"{framing} K={K}: with undefined-type frames {ids} in between, pings at {b['pings']} / closed at {b['closed']} "
+                                  f"({b['cause']}); silent control: pings at {a['pings']} / closed at {a['closed']} ({a['cause']})", case, trace=b["trace"])
+
+
+def crossing_disconnects(ctx: Ctx) -> None:
+    """The device's DisconnectRequest arrives while the client's own disconnect() is waiting for its DisconnectResponse: it is still a peer
+    request and must be answered (response first, then an expected close)."""
+    res = ctx.res
+    idx = 0
+    for framing in ("plain", "noise"):
+        for gap in (0.0, 0.01, 0.5):
+            for same_chunk_ping in (False, True):
+                idx += 1
+                if not ctx.mine(idx):
+                    continue
+                with Sim() as sim:
+                    cfg = DeviceConfig()
+                    if framing == "noise":
+                        cfg.noise_psk = PSK
+
+                    def on_disc(c: Any, m: Any, gap: float = gap, same_chunk_ping: bool = same_chunk_ping) -> None:
+                        # the device does not acknowledge; it sends its OWN request (it was about to reboot), the acknowledgement comes much later
+                        if same_chunk_ping:
+                            c.deliver_items([("msg", c.proto.id_of("PingRequest"), b""), ("msg", c.proto.id_of("DisconnectRequest"), b"")], gap)
+                        else:
+                            c.send("DisconnectRequest", _delay=gap)
+                        c.send("DisconnectResponse", _delay=gap + 3.0)
+
+                    cfg.handlers["DisconnectRequest"] = on_disc
+                    dev = sim.device(cfg)
+                    kw = {"noise_psk": base64.b64encode(PSK).decode()} if framing == "noise" else {}
+                    cli = sim.client(keepalive=1e5, **kw)
+                    c0 = sim.call("connect", lambda: cli.connect(on_stop=sim.on_stop_cb(), login=False))
+                    sim.run(until=lambda: c0.done, max_time=sim.clock + 50)
+                    d = sim.call("disconnect", lambda: cli.disconnect())
+                    t_d = sim.clock
+                    sim.run_for(1.0)
+                    v = sim.conns[0]
+                    names = dev.conn.received_names()
+                    res.evaluations += 1
+                    res.count("workload/crossing-disconnects")
+                    res.sig("crossing", framing, gap, same_chunk_ping)
+                    case = {"framing": framing, "gap": gap, "ping_in_same_chunk": same_chunk_ping}
+                    if names.count("DisconnectResponse") != 1:
+                        res.violation("C12/crossing-disconnect/not-answered", f"device sent DisconnectRequest while the client's disconnect() was pending; client wrote {names}", case, trace=sim.trace(50))
+                    if same_chunk_ping and names.count("PingResponse") != 1:
+                        res.violation("C12/crossing-disconnect/ping-not-answered", f"client wrote {names}", case, trace=sim.trace(50))
+                    if v.obj.connection_state.name != "CLOSED" or v.closed_t is None or v.closed_t - t_d > gap + 0.1:
+                        res.violation("C12/crossing-disconnect/not-closed", f"state {v.obj.connection_state.name}, closed {None if v.closed_t is None else v.closed_t - t_d:+.3f}s after disconnect() "
+                                      f"(device's request came at +{gap}s)", case, trace=sim.trace(50))
+                    if [x[2] for x in v.on_stop] != [True]:
+                        res.violation("C12/crossing-disconnect/on_stop", f"stop hook calls {[x[2] for x in v.on_stop]}", case)
+                    sim.run(until=lambda: d.done, max_time=sim.clock + 20)
+
+
 def shard(ctx: Ctx) -> None:
+    undefined_frames_and_keepalive(ctx)
+    crossing_disconnects(ctx)
     id_sweep(ctx)
     histories(ctx)
     peer_requests_during_connect(ctx)
